@@ -25,7 +25,7 @@ type propCase struct {
 	Verif   int
 }
 
-var poolNames = [cs.PoolSize]string{"genesis", "b0", "b1", "b3", "sub-quorum", "relabel-view-9", "relabel-view-huge", "unknown-block", "repeated-signer", "genesis-view-7", "nil-signature", "b3-signers-relabelled", "b3-resplit"}
+var poolNames = [cs.PoolSize]string{"genesis", "b0", "b1", "b3", "sub-quorum", "relabel-view-9", "relabel-view-huge", "unknown-block", "repeated-signer", "genesis-view-7", "nil-signature", "b3-signers-relabelled", "b3-resplit", "genesis-with-signature"}
 
 func proposalProp(c propCase) common.Result {
 	w := cs.GetWorld(c.Scheme, c.N)
@@ -184,7 +184,7 @@ func genProposal(rt *rapid.T) propCase {
 			}
 			c.BlockQC = best
 		case 2:
-			c.BlockQC = rapid.SampledFrom([]int{cs.PoolB3Relabel, cs.PoolB3Resplit, cs.PoolRepeated, cs.PoolSubQuorum}).Draw(rt, "twin")
+			c.BlockQC = rapid.SampledFrom([]int{cs.PoolB3Relabel, cs.PoolB3Resplit, cs.PoolRepeated, cs.PoolSubQuorum, cs.PoolGenesisSigned, cs.PoolNilSig}).Draw(rt, "twin")
 		default:
 			c.BlockQC = rapid.IntRange(0, cs.PoolSize-1).Draw(rt, "pool")
 		}
